@@ -141,14 +141,26 @@ pub fn run(bin: &Path, spec: &RunSpec) -> RunOut {
         return o;
     }
     let mut s2 = spec.clone();
-    s2.timeout = (spec.timeout * 4).max(Duration::from_secs(60));
+    s2.timeout = (spec.timeout * 4).min(Duration::from_secs(120)).max(Duration::from_secs(60)).max(spec.timeout);
     let o2 = run_once(bin, &s2);
     if !o2.timed_out {
         return o2;
     }
-    s2.timeout = (spec.timeout * 12).max(Duration::from_secs(180));
-    run_once(bin, &s2)
+    // once a hang has been confirmed with the longest limit in this process, later expiries are believed after the
+    // first confirmation (a tree that hangs would otherwise cost four minutes per case)
+    if CONFIRMED_HANGS.load(std::sync::atomic::Ordering::Relaxed) >= 2 {
+        return o2;
+    }
+    s2.timeout = (spec.timeout * 12).min(Duration::from_secs(300)).max(Duration::from_secs(180)).max(spec.timeout);
+    let o3 = run_once(bin, &s2);
+    if o3.timed_out {
+        CONFIRMED_HANGS.fetch_add(1, std::sync::atomic::Ordering::Relaxed);
+    }
+    o3
 }
+
+/// number of runs of this process that outlived the watchdog three times (12x limit, at least 180 s)
+pub static CONFIRMED_HANGS: std::sync::atomic::AtomicU64 = std::sync::atomic::AtomicU64::new(0);
 
 fn run_once(bin: &Path, spec: &RunSpec) -> RunOut {
     let t0 = Instant::now();
